@@ -1478,6 +1478,116 @@ theorem osgb_offset_wrap (s : Bool) (m : ℕ) (e : ℤ) (hm : m < 2 ^ 53) (he1 :
     OSGB.scaleCoord (F64.fin s m e) p = ⟨-1, 10 ^ (min p 5), 0⟩ :=
   scaleCoord_wrap s m e hm he1 he0 p hp h1 h2 hnu
 
+/-- `CheckCoords`: accepted ⇔ each coordinate is NaN or a finite number in the half-open documented range
+`[−1000 km, 1500 km) × [−500 km, 2000 km)` (limits from `Gen.Grid`); ±∞ is rejected -/
+theorem osgb_checkCoords_iff (x y : F64) :
+    OSGB.checkCoords x y = .ok () ↔
+      (x.isNaN = true ∨ (x.isFinite = true ∧ (osgb_minx : ℚ) ≤ x.val ∧ x.val < (osgb_maxx : ℚ))) ∧
+      (y.isNaN = true ∨ (y.isFinite = true ∧ (osgb_miny : ℚ) ≤ y.val ∧ y.val < (osgb_maxy : ℚ))) := by
+  have key : ∀ (a : F64) (lo hi : ℤ), (F64.lt a (F64.ofInt lo) || F64.ge a (F64.ofInt hi)) = false ↔
+      (a.isNaN = true ∨ (a.isFinite = true ∧ (lo:ℚ) ≤ a.val ∧ a.val < (hi:ℚ))) := by
+    intro a lo hi
+    cases a with
+    | nan => simp [F64.lt, F64.ge, F64.le, F64.ofInt, F64.ofDy, F64.isNaN]
+    | inf sgn => cases sgn <;> simp [F64.lt, F64.ge, F64.le, F64.ofInt, F64.ofDy, F64.isNaN, F64.isFinite]
+    | fin sa ma ea =>
+      have h1 := lt_of_hasVal (hasVal_fin sa ma ea) (hasVal_ofInt lo)
+      have h2 : F64.ge (F64.fin sa ma ea) (F64.ofInt hi) = true ↔ (hi:ℚ) ≤ (F64.fin sa ma ea).val := by
+        show Dy.le (F64.ofInt hi).toDy (F64.fin sa ma ea).toDy = true ↔ _
+        rw [Dy.le_iff]
+        show (F64.ofInt hi).val ≤ _ ↔ _
+        rw [(hasVal_ofInt hi).2]
+        exact Iff.rfl
+      simp only [F64.isNaN, F64.isFinite, Bool.false_eq_true, false_or, true_and, Bool.or_eq_false_iff]
+      constructor
+      · rintro ⟨a1, a2⟩
+        constructor
+        · by_contra hc
+          have := h1.mpr (not_le.mp hc)
+          rw [this] at a1; cases a1
+        · by_contra hc
+          have := h2.mpr (not_lt.mp hc)
+          rw [this] at a2; cases a2
+      · rintro ⟨a1, a2⟩
+        constructor
+        · rw [Bool.eq_false_iff]; intro hc; have := h1.mp hc; linarith
+        · rw [Bool.eq_false_iff]; intro hc; have := h2.mp hc; linarith
+  unfold OSGB.checkCoords
+  rw [← key x osgb_minx osgb_maxx, ← key y osgb_miny osgb_maxy]
+  cases hx : (F64.lt x (F64.ofInt osgb_minx) || F64.ge x (F64.ofInt osgb_maxx)) <;>
+  cases hy : (F64.lt y (F64.ofInt osgb_miny) || F64.ge y (F64.ofInt osgb_maxy)) <;>
+  simp [bind, Except.bind, throw, throwThe, MonadExceptOf.throw, pure, Except.pure]
+
+/-- the documented ranges -/
+theorem osgb_ranges : osgb_minx = -1000000 ∧ osgb_maxx = 1500000 ∧ osgb_miny = -500000 ∧ osgb_maxy = 2000000 ∧
+    osgb_tile = 100000 ∧ osgb_tilegrid = 5 ∧ osgb_tileoffx = 2 * osgb_tilegrid ∧ osgb_tileoffy = osgb_tilegrid ∧
+    osgb_maxprec = 11 ∧ osgb_base = 10 ∧ osgb_tilelevel = 5 := by decide
+
+/-- `GridReference(x, y, prec)` as a whole: range check, precision check `0 ≤ prec ≤ 11`, NaN ↦ "INVALID", otherwise the
+integer encoder applied to the floating parts of the two coordinates -/
+theorem osgb_gridReference_eq (x y : F64) (prec : ℤ) (hc : OSGB.checkCoords x y = .ok ()) :
+    OSGB.gridReference x y prec =
+      if ¬ (0 ≤ prec ∧ prec ≤ 11) then .error "prec"
+      else if x.isNaN || y.isNaN then .ok "INVALID".toList
+      else .ok (OSGB.encodeInt (OSGB.scaleCoord x prec.toNat) (OSGB.scaleCoord y prec.toNat) prec.toNat) := by
+  unfold OSGB.gridReference
+  have e11 : osgb_maxprec = 11 := rfl
+  rw [hc, e11]
+  by_cases hp : 0 ≤ prec ∧ prec ≤ 11
+  · by_cases hn : (x.isNaN || y.isNaN) = true
+    · simp [hp, hn, bind, Except.bind, pure, Except.pure]
+    · simp [hp, hn, bind, Except.bind, pure, Except.pure]
+  · simp [hp, bind, Except.bind, throw, throwThe, MonadExceptOf.throw]
+
+/-! #### the constants of the OSGB36 projection as written in `OSGB.hpp` (re-extracted on every run: `Gen.OSGBC`) -/
+
+/-- **defining constants** (Ordnance Survey, *A guide to coordinate systems in Great Britain*): Airy 1830 semi-axes
+`a = 20923713 ft`, `b = 20853810 ft` with `log₁₀(m/ft) = 0.48401603 − 1`; `log₁₀ F₀ = 9.9998268 − 10`; true origin 49°N 2°W;
+false origin `E₀ = 400 000 m`, `N₀ = −100 000 m` -/
+theorem osgb_constants_documented :
+    Gen.OSGBC.a_base = 10 ∧ Gen.OSGBC.a_lognum = 48401603 - 100000000 ∧ Gen.OSGBC.a_logden = 100000000 ∧
+    Gen.OSGBC.a_mul = 20923713 ∧ Gen.OSGBC.f_num = 20923713 - 20853810 ∧ Gen.OSGBC.f_den = 20923713 ∧
+    Gen.OSGBC.k0_base = 10 ∧ Gen.OSGBC.k0_lognum = 9998268 - 10000000 ∧ Gen.OSGBC.k0_logden = 10000000 ∧ Gen.OSGBC.k0_mul = 1 ∧
+    Gen.OSGBC.lat0 = 49 ∧ Gen.OSGBC.lon0 = -2 ∧ Gen.OSGBC.falseNorthing = -100000 ∧ Gen.OSGBC.falseEasting = 400000 := by
+  decide
+
+/-- the flattening is `7767/2324857`, i.e. `1/f = 299.32496459…` (the header's comment says 1/299.32496459) -/
+theorem osgb_flattening_value :
+    (Gen.OSGBC.f_num : ℚ) / Gen.OSGBC.f_den = 7767 / 2324857 ∧
+    (29932496459 : ℚ) / 100000000 < (Gen.OSGBC.f_den : ℚ) / Gen.OSGBC.f_num ∧
+    (Gen.OSGBC.f_den : ℚ) / Gen.OSGBC.f_num < 29932496460 / 100000000 := by
+  have h1 : (Gen.OSGBC.f_num : ℚ) = 69903 := by norm_num [Gen.OSGBC.f_num]
+  have h2 : (Gen.OSGBC.f_den : ℚ) = 20923713 := by norm_num [Gen.OSGBC.f_den]
+  rw [h1, h2]
+  norm_num
+
+/-- the false origin is a corner of the 100 km grid: the letters of `GridReference` and the projection agree on the
+origin of the coordinates (`FalseEasting = 4 tiles`, `FalseNorthing = −1 tile`) -/
+theorem osgb_false_origin_on_grid :
+    Gen.OSGBC.falseEasting = 4 * osgb_tile ∧ Gen.OSGBC.falseNorthing = -1 * osgb_tile := by decide
+
+/-- the wrapper: `Reverse` undoes the shifts of `Forward` exactly whenever the two additions are exact (they are
+binary64 additions of the false easting / the north offset) -/
+theorem osgb_wrap_shape (fe no tx ty : F64) :
+    OSGB.forwardWrap fe no tx ty = (tx + fe, ty + no) ∧ OSGB.reverseWrap fe no tx ty = (tx - fe, ty - no) ∧
+    OSGB.northOffset fe ty = fe - ty := ⟨rfl, rfl, rfl⟩
+
+/-! non-vacuity of the hypotheses of the OSGB theorems -/
+/-- `x = 651409.903` (the OS worked example): `m < 2^53`, `e = −33`, tile 6, offset exact -/
+example : (5595568465256579 : ℕ) < 2 ^ 53 ∧ (-1074 : ℤ) ≤ -33 ∧ (-33 : ℤ) ≤ 0 := by decide
+example : OSGB.scaleCoord (F64.fin false 5595568465256579 (-33)) 3 = ⟨6, 514, 0⟩ := by decide +kernel
+example : OSGB.scaleCoord (F64.fin false 5595568465256579 (-33)) 8 = ⟨6, 51409, 903⟩ := by decide +kernel
+/-- class G18-1: `x = −2^(−40)` -/
+example : OSGB.scaleCoord (F64.fin true 1 (-40)) 5 = ⟨-1, 100000, 0⟩ := by decide +kernel
+/-- class U: `x = −2^(−1074)` -/
+example : OSGB.scaleCoord (F64.fin true 1 (-1074)) 5 = ⟨0, 0, 0⟩ := by decide +kernel
+/-- class F2 in the digits beyond 1 m: `x = 0.3` (the double, `< 3/10`), `p = 6`: digit 3 -/
+example : OSGB.scaleCoord (F64.fin false 5404319552844595 (-54)) 6 = ⟨0, 0, 3⟩ := by decide +kernel
+example : (match OSGB.decodeInt (toBytes "tg 51409 13177".toList) with
+    | .ok d => decide (d = ⟨6, 3, [5, 1, 4, 0, 9], [1, 3, 1, 7, 7], 5⟩) | .error _ => false) = true := by decide +kernel
+example : String.ofList (OSGB.encodeInt ⟨6, 51409, 903⟩ ⟨3, 13177, 270⟩ 8) = "TG5140990313177270" := by decide +kernel
+example : OSGB.checkCoords (F64.ofInt 651409) (F64.ofInt 313177) = .ok () := by decide +kernel
+
 end OSGB
 
 /-! ### non-vacuity: concrete codes -/
